@@ -1,22 +1,39 @@
 #!/bin/bash
 # Regenerates docs/SEEDED.md (which check/rule catches which seeded change) and docs/REFACTORS.md
 # (all checks on every behaviour-preserving refactoring) from fresh runs against /repo's HEAD.
+# Usage: scripts/gen_tables.sh [seeded|refactors|both] [shards]   (default: both, 6 shards; each shard uses its own
+# scratch worktree, removed on exit)
 cd "$(dirname "$0")/.." || exit 2
+what=${1:-both}; N=${2:-6}
 mkdir -p docs
+T=$(mktemp -d /tmp/gentab.XXXXXX); trap 'rm -rf "$T"' EXIT
+shard() { # shard <script> <outprefix> <ids...>
+  local script=$1 pre=$2; shift 2; local ids=("$@") n=${#ids[@]} k i
+  for ((k=0;k<N;k++)); do
+    part=(); for ((i=k;i<n;i+=N)); do part+=("${ids[$i]}"); done
+    [ ${#part[@]} -gt 0 ] && ( $script "${part[@]}" > "$T/$pre.$k" 2>&1 ) &
+  done; wait
+}
+if [ "$what" != refactors ]; then
+shard scripts/seeded.sh seeded $(ls seeded)
 {
 echo "# Seeded property-breaking changes and the rule that reports each"
 echo
 echo "Produced by \`scripts/seeded.sh\` on $(date -u +%F) at /repo $(git -C /repo rev-parse --short HEAD). Every seed was written by an"
 echo "independent sub-agent that saw only the property text; each was confirmed (builds, existing tests pass, demo fails"
 echo "with the change and passes without) by \`scripts/confirm_seed.sh\`. See seeded/<id>/README.md for what each needs to manifest."
+echo "Suffixes a,b = first wave (seen by the rule authors in round 2); c,d = second wave (unseen until rounds 4-5)."
 echo
 echo "| seed | property | verdict | reporting obligation (first) |"
 echo "|---|---|---|---|"
-scripts/seeded.sh 2>&1 | while read id prop verdict rest; do
+cat "$T"/seeded.* | grep -E '^C[0-9]{2}-[a-z] ' | sort | while read id prop verdict rest; do
   ob=$(echo "$rest" | sed -E 's/^violation: //' | cut -c1-150 | sed 's/|/\\|/g')
   echo "| $id | $prop | $verdict | $ob |"
 done
 } > docs/SEEDED.md
+fi
+if [ "$what" != seeded ]; then
+shard scripts/refcheck.sh ref $(ls refactors)
 {
 echo "# Behaviour-preserving refactorings: all 39 checks on each"
 echo
@@ -25,7 +42,8 @@ echo "sub-agent given only the property text and asked for substantial behaviour
 echo "behind that property (see the README.md next to the diffs). SILENT = every check exits 0."
 echo
 echo '```'
-scripts/refcheck.sh 2>&1 | cut -c1-200
+for f in $(ls "$T"/ref.* | sort); do cat $f; done | awk '/^C[0-9][0-9]\//{key=$1} {print key "\t" NR "\t" $0}' | sort -s -k1,1 | cut -f3- | cut -c1-200
 echo '```'
 } > docs/REFACTORS.md
-grep -c DETECTED docs/SEEDED.md; grep -c SILENT docs/REFACTORS.md; grep -c ALARM docs/REFACTORS.md
+fi
+echo "seeds detected: $(grep -c DETECTED docs/SEEDED.md 2>/dev/null) missed: $(grep -c MISSED docs/SEEDED.md 2>/dev/null); refactorings silent: $(grep -c SILENT docs/REFACTORS.md 2>/dev/null) alarm: $(grep -c ALARM docs/REFACTORS.md 2>/dev/null)"
